@@ -900,6 +900,12 @@ func (n *BinaryOpNode) String() string {
 	// binary operators associate to the left: the right operand needs
 	// parentheses already at equal precedence.
 	var prec = binaryPrecedence[n.Name]
+	if prec == precElvis {
+		// ?: associates to the right and its right operand extends as far as
+		// possible (it may be a ternary); on the left another ?: or a ternary
+		// needs parentheses.
+		return operandString(n.Arg1, prec+1) + " " + n.Name + " " + n.Arg2.String()
+	}
 	return operandString(n.Arg1, prec) + " " + n.Name + " " + operandString(n.Arg2, prec+1)
 }
 
@@ -933,7 +939,8 @@ func (n *TernNode) String() string {
 	// (spaces keep "?" apart from a following "." "[" or ":".)  A ternary as the
 	// condition or the first branch must be parenthesized; the last branch
 	// extends as far as possible anyway.
-	return operandString(n.Arg1, precElvis) + " ? " + operandString(n.Arg2, precElvis) + " : " + n.Arg3.String()
+	// (a ?: in the condition needs them too: a ?: b ? c : d is a ?: (b ? c : d).)
+	return operandString(n.Arg1, precElvis+1) + " ? " + operandString(n.Arg2, precElvis) + " : " + n.Arg3.String()
 }
 
 // Operator precedence, as the parser implements it, for printing expressions
